@@ -22,7 +22,7 @@ import re
 import tla
 import vcheck
 
-PROPS = ["AtMostOne", "IsLatest", "ValidUnexpiredMember", "NoFalseAlarm", "AlertOnce", "Reported", "Forgotten"]
+PROPS = ["AtMostOne", "IsLatest", "ValidUnexpiredMember", "NoFalseAlarm", "AlertOnce", "Reported", "Forgotten", "Used"]
 ACCN = 6       # metrics.accrualMetricsNum (unexported): the recorded executions are folded with this value
 
 
@@ -104,6 +104,9 @@ def classify(rec, b):
     if name == "Reported" and b["pairs"]:
         kinds = sorted({pair_history(rec, b["step"], tuple(pr)) for pr in b["pairs"]})
         return "C09:Reported:%s" % "+".join(kinds)
+    if name in ("IsLatest", "Used", "NoFalseAlarm") and any(
+            s["act"]["a"] == "garbage" for s in rec["steps"][:b["step"] - 1]):
+        return "C09:pubsub:garbage:later-metric-dropped"
     return "C09:%s:%s" % (name, act)
 
 
@@ -240,6 +243,9 @@ def run(ctx):
         "time is real: 'past'/'far' are now -/+ 1h, 'short' is a 400 ms TTL whose tick is a sleep past the expiry; "
         "a script whose pre-tick steps eat 3/4 of the TTL is retried with a doubled TTL",
         "where >= 6 metrics are stored the accrual detector's verdict is read off the observation (not predicted)",
+        "undecodable messages (random bytes, truncated metric, empty payload, msgpack string) are published raw by the "
+        "harness from the monitor's own host (the monitor does not look at the sender); delivery of every pubsub message "
+        "is witnessed by a second subscription owned by the harness",
         "ring window modelled as a bounded queue; alert order within one check is left free (map iteration)",
         "cadence: two informers (TTL 400 and 600 ms) and the ping; ping publish errors are not injected (pushPingMetrics has zero margin after a lost ping: "
         "MonitorCadence MaxErrPing = 0); informer publish errors are scripted by attempt number (isolated, bursts of 2, 3 and 11 consecutive failures); "
@@ -248,12 +254,13 @@ def run(ctx):
     # SPEC
     skip_spec = bool(os.environ.get("VERIF_C09_SKIP_SPEC"))     # development aid (mutant runs); never set by bin/check
     mcs = [("MonitorMC_quick.cfg" if quick else "MonitorMC_thorough.cfg"),
-           ("MonitorMC_names.cfg" if quick else "MonitorMC_names_thorough.cfg"), "MonitorMC_accrual.cfg"]
+           ("MonitorMC_names.cfg" if quick else "MonitorMC_names_thorough.cfg"), "MonitorMC_accrual.cfg",
+           "MonitorMC_garbage.cfg"]
     if skip_spec:
         mcs = []
     ctx.specdir()
-    with concurrent.futures.ThreadPoolExecutor(max_workers=3) as ex:
-        futs = [ex.submit(ctx.tlc, "MonitorMC.tla", c, workers=5, timeout=900 if quick else 3400) for c in mcs]
+    with concurrent.futures.ThreadPoolExecutor(max_workers=4) as ex:
+        futs = [ex.submit(ctx.tlc, "MonitorMC.tla", c, workers=4, timeout=900 if quick else 3400) for c in mcs]
         for f in futs:
             f.result()
     ctx.tlc("MonitorCadence.tla", "MonitorCadence.cfg", workers=2, timeout=300)
@@ -270,16 +277,23 @@ def run(ctx):
                # a far-expiring metric superseded by an earlier-expiring one (direct and over pubsub)
                refute(ctx, "MonitorMC_goal_farpast.cfg", "NeverFarThenPastAlert", "goal:far_then_past"),
                refute(ctx, "MonitorMC_goal_farshort.cfg", "NeverFarThenShortAlert", "goal:far_then_short:publish")]
+    # an undecodable message (4 kinds) on the metrics topic between two valid published metrics of one peer
+    for k in ("Random", "Truncated", "Empty", "WrongType"):
+        scripts.append(refute(ctx, "MonitorMC_goal_garbage_%s.cfg" % k.lower(), "NeverFreshAfter" + k,
+                              "goal:garbage:%s:publish" % k.lower()))
     # GEN
     n_small, n_big = (160, 60) if quick else (2400, 600)
     scripts += simulate(ctx, "MonitorMC_sim.cfg", n_small, 28, ctx.seed, "sim:w3")
     scripts += simulate(ctx, "MonitorMC_simbig.cfg", n_big, 28, ctx.seed + 1000, "sim:w25")
     # 2 names x 2 peers: interactions between the metric names of one peer are frequent here
     scripts += simulate(ctx, "MonitorMC_simpair.cfg", 80 if quick else 1200, 28, ctx.seed + 2000, "sim:pair")
+    # the same with undecodable messages interleaved (these scripts run over pubsub)
+    scripts += simulate(ctx, "MonitorMC_simgarbage.cfg", 40 if quick else 600, 28, ctx.seed + 3000, "sim:garbage")
     for i, sc in enumerate(scripts):
         sc["id"] = i + 1
         sc["accn"] = ACCN
-        sc["publish"] = True if sc["src"].endswith(":publish") else rng.random() < 0.35
+        sc["publish"] = True if (sc["src"].endswith(":publish") or any(a["a"] == "garbage" for a in sc["steps"])) \
+            else rng.random() < 0.35
     inp = os.path.join(ctx.work, "c09_scripts.ndjson")
     with open(inp, "w") as f:
         for sc in scripts:
